@@ -33,10 +33,11 @@ def join(a, b):
 
 
 class Dim:
-    def __init__(self, ctx, cursor_fields=()):
+    def __init__(self, ctx, cursor_fields=(), byte_fields=()):
         self.ctx = ctx
         self.prog = ctx.prog
         self.cursor_fields = set(cursor_fields)   # field names holding character cursors
+        self.byte_fields = set(byte_fields)       # field names holding byte offsets
         self._ret = {}
         self._param = {}
         self._busy = set()
@@ -144,6 +145,8 @@ class Dim:
         if k == "field":
             if e[2] in self.cursor_fields:
                 return "C"
+            if e[2] in self.byte_fields:
+                return "B"
             if e[2] in ("0",):
                 d = self._iter_item_dim(fn, e)
                 if d:
@@ -171,6 +174,9 @@ class Dim:
                 return "C" if any(x[0] == "call" and x[1] and (x[1].endswith("::chars") or x[1].endswith("::char_indices")) for x in expr_walk(e)) else "U"
             if c in self.prog.fns:
                 return self.ret_dim(c) or "U"
+            if c.endswith("Option::<T>::unwrap_or") and len(e[2]) == 2:
+                # Some(x) => x, None => the default: the join of both
+                return join(self.dim(fn, e[2][0], depth=depth + 1, _vis=_vis), self.dim(fn, e[2][1], depth=depth + 1, _vis=_vis)) or "U"
             if c.endswith("::min") or c.endswith("::max"):
                 d = None
                 for a in e[2]:
